@@ -9,9 +9,19 @@ import (
 
 	"verifharness/lib"
 
+	gologging "gopkg.in/op/go-logging.v1"
+
 	"github.com/thought-machine/please/src/core"
 	"github.com/thought-machine/please/src/parse/asp"
 )
+
+// newState is core.NewBuildState without its watchdog: NewBuildState starts forwardResults, which dumps all goroutine
+// stacks after 5 idle seconds; one active (never finished) result parks it on a plain channel receive instead.
+func newState(cfg *core.Configuration) *core.BuildState {
+	st := core.NewBuildState(cfg)
+	st.LogTestRunning(core.NewBuildTarget(core.BuildLabel{PackageName: "verif", Name: "park"}), 1, core.TargetTesting, "")
+	return st
+}
 
 // ------------------------------------------------------------------------------------------------
 // Coq printers
@@ -147,8 +157,8 @@ func roundTrip(target, cur string, l core.BuildLabel) rtResult {
 		r.class = "original-target-sentinel"
 	case err != nil && !strings.Contains(target, ":") && !docValidName(l.Name):
 		r.class = "implied-name-unvalidated"
-	case err == nil && strings.HasSuffix(l.Subrepo, "/") && l2.PackageName == l.PackageName && l2.Name == l.Name &&
-		l2.Subrepo == strings.TrimRight(l.Subrepo, "/"):
+	case strings.HasSuffix(l.Subrepo, "/") && docValidName(l.Name):
+		// the slash can only come from the string: the subrepo arguments the harness passes never end in one
 		r.class = "subrepo-trailing-slash"
 	default:
 		r.class = "label-roundtrip-other"
@@ -169,14 +179,17 @@ type enumStats struct{ strings, accepted, failing int }
 
 // enumGroup enumerates prefix++w, |w| <= depth, in pre-order through the real parser.
 func enumGroup(c *lib.Ctx, prefix string, depth int, cur string, st *enumStats, labels map[core.BuildLabel]bool) {
-	items := []string{}
+	var blob strings.Builder
+	nitems := 0
 	var rec func(x []byte, d int)
 	rec = func(x []byte, d int) {
 		t := string(x)
 		st.strings++
 		if l, err := core.TryParseBuildLabel(t, cur, ""); err == nil {
 			st.accepted++
-			items = append(items, lib.Pair(lib.Str(t), coqLabel(l)))
+			// one entry of Model/C20.v encode_accepted; neither separator is in the alphabet or in cur
+			blob.WriteString(t + " " + l.PackageName + " " + l.Name + " " + l.Subrepo + "|")
+			nitems++
 			labels[l] = true
 			c.Oracle()
 			if r := roundTrip(t, cur, l); !r.ok {
@@ -192,10 +205,10 @@ func enumGroup(c *lib.Ctx, prefix string, depth int, cur string, st *enumStats, 
 		}
 	}
 	rec([]byte(prefix), depth)
-	c.Case(lib.App("CEnum", lib.Str(alphabet), lib.Nat(depth), lib.Str(prefix), lib.Str(cur), lib.List(items)),
-		map[string]any{"kind": "enum", "prefix": prefix, "depth": depth, "current_path": cur, "accepted": len(items)},
-		"enum "+prefix, len(items) > 0)
-	c.HistN("enum_accepted_per_group_log2", log2(len(items)))
+	c.Case(lib.App("CEnum", lib.Str(alphabet), lib.Nat(depth), lib.Str(prefix), lib.Str(cur), lib.Str(blob.String())),
+		map[string]any{"kind": "enum", "prefix": prefix, "depth": depth, "current_path": cur, "accepted": nitems},
+		"enum "+prefix, nitems > 0)
+	c.HistN("enum_accepted_per_group_log2", log2(nitems))
 }
 
 func log2(n int) int {
@@ -226,6 +239,7 @@ func allStrings(n int) []string {
 var segPool = []string{"a", "b", "p", "pfoo", "p-x", "src", "core", "third_party", ".x", "..", ".", "x._build", "y._test", "...", "all", "_a", "a.b", "é", "a b"}
 var namePool = []string{"a", "t", "core", "all", "...", "_t#x", "__t#a#b", "t#x", "#", "_#", ".hidden", "x._build", "x._test", "_ORIGINAL", "_STDIN", "a|b", "a$", "n-1", "é", "a b", "x.y"}
 var subPool = []string{"", "", "sub", "third_party/go", "s@linux_amd64", "a/", "/", "/a", ".s", "s:t", "pleasings"}
+var subArgPool = []string{"sub", "third_party/go", "s@linux_amd64", "pleasings"}
 var mutBytes = []byte("/:@#._-|$*?[]{}()&\\ a\x00\xff\xc3")
 
 func genPkg(r *lib.Rng) string {
@@ -334,8 +348,16 @@ var treeSegs = []string{"p", "pfoo", "p-x", "pf", "q", "sub", "exp", "expo", "a"
 
 // genTree returns a set of package names with shared-prefix siblings: for a package q also q+"foo", q+"/sub",
 // q minus its last byte, and the parents of everything.
-func genTree(r *lib.Rng) []string {
+func genTree(r *lib.Rng, dirs []string) []string {
 	set := map[string]bool{}
+	for _, d := range dirs {
+		// the experimental directories, a sibling sharing the name as a prefix, and a package below
+		set[d] = true
+		set[d+lib.Pick(r, []string{"o", "foo", "-x", "_"})] = true
+		if r.Chance(2, 3) {
+			set[d+"/"+lib.Pick(r, treeSegs)] = true
+		}
+	}
 	n := r.Range(2, 5)
 	for i := 0; i < n; i++ {
 		d := r.Range(1, 3)
@@ -466,11 +488,15 @@ type sbxTarget struct {
 	TestSbx   bool
 }
 
-func sandboxCase(c *lib.Ctx, whitelist []core.BuildLabel, dirs []string, t sbxTarget) {
+func sandboxState(whitelist []core.BuildLabel, dirs []string) *core.BuildState {
 	cfg := core.DefaultConfiguration()
 	cfg.Sandbox.ExcludeableTargets = whitelist
 	cfg.Parse.ExperimentalDir = dirs
-	state := &core.BuildState{Config: cfg}
+	return &core.BuildState{Config: cfg}
+}
+
+func sandboxCase(c *lib.Ctx, state *core.BuildState, t sbxTarget) {
+	whitelist, dirs := state.Config.Sandbox.ExcludeableTargets, state.Config.Parse.ExperimentalDir
 	bt := core.NewBuildTarget(t.Label)
 	bt.IsFilegroup, bt.IsRemoteFile, bt.Sandbox = t.Filegroup, t.Remote, t.Sandbox
 	if t.HasTest {
@@ -576,8 +602,8 @@ func canSeeCase(c *lib.Ctx, state *core.BuildState, dirs []string, l, dep core.B
 
 // --- expansion of an original pseudo-target over a graph, with --exclude labels
 
-func expandCase(c *lib.Ctx, tree []string, r *lib.Rng) {
-	state := core.NewBuildState(core.DefaultConfiguration())
+func expandCase(c *lib.Ctx, state *core.BuildState, tree []string, r *lib.Rng) {
+	state.Graph = core.NewGraph() // NewBuildState costs ~70 ms: one state, a fresh graph per case
 	graph := [][2]any{}
 	coqGraph := []string{}
 	all := []core.BuildLabel{}
@@ -653,6 +679,7 @@ func expandCase(c *lib.Ctx, tree []string, r *lib.Rng) {
 
 func main() {
 	lib.Main("C20", func(c *lib.Ctx) {
+		gologging.SetLevel(gologging.CRITICAL, "plz") // CanSee logs every refusal / suppression
 		c.Model("From PlzV Require Import Model.C20.", "C20.case", "C20.check")
 		maxLen := c.Scale(6, 7)
 		c.Rule(fmt.Sprintf("parse/print: EVERY string of length <= %d over the 8 symbols %q through core.TryParseBuildLabel in package a/a "+
@@ -688,7 +715,7 @@ func main() {
 			r := c.Rng.Fork()
 			sub := ""
 			if r.Chance(1, 4) {
-				sub = lib.Pick(r, subPool)
+				sub = lib.Pick(r, subArgPool) // what a caller passes: the name of an existing subrepo
 			}
 			parseCase(c, genLabelString(r), genValidPkg(r), sub, labels)
 		}
@@ -722,18 +749,43 @@ func main() {
 		// --- 2. selection over package trees
 		// the pre-fix witness (corpus/C20/sandbox_whitelist_prefix_repo.tar): whitelist //p/..., experimental dir exp
 		wl := []core.BuildLabel{{PackageName: "p", Name: "..."}}
+		wst := sandboxState(wl, []string{"exp"})
 		for _, q := range []string{"p", "p/sub", "pfoo", "exp", "expo", "exp/x", "q", "_please", ""} {
-			sandboxCase(c, wl, []string{"exp"}, sbxTarget{Label: core.BuildLabel{PackageName: q, Name: "t"}})
+			sandboxCase(c, wst, sbxTarget{Label: core.BuildLabel{PackageName: q, Name: "t"}})
 		}
 		selectCase(c, []core.BuildLabel{{PackageName: "p", Name: "..."}, {PackageName: "p", Name: "all"}, {PackageName: "", Name: "..."}, {PackageName: ".", Name: "..."},
 			{PackageName: "exp", Name: "..."}, {PackageName: "p", Name: "t"}},
 			[]core.BuildLabel{{PackageName: "p", Name: "t"}, {PackageName: "p/sub", Name: "t"}, {PackageName: "pfoo", Name: "t"}, {PackageName: "p", Name: "_t#x"},
 				{PackageName: "expo", Name: "t"}, {PackageName: "", Name: "t"}, {PackageName: "pfoo/p", Name: "t"}})
 
+		// NewBuildState fixes experimentalLabels from the configuration and costs ~70 ms: a pool of states, each with its own
+		// experimental directories; every tree is grown around the directories of the state it is checked with
+		type expState struct {
+			dirs  []string
+			state *core.BuildState
+		}
+		pool := []expState{}
+		for k := c.Scale(10, 40); k > 0; k-- {
+			r := c.Rng.Fork()
+			dirs := []string{}
+			for j := r.Range(0, 2); j > 0; j-- {
+				d := lib.Pick(r, treeSegs)
+				if r.Chance(1, 3) {
+					d += "/" + lib.Pick(r, treeSegs)
+				}
+				dirs = append(dirs, d)
+			}
+			cfg := core.DefaultConfiguration()
+			cfg.Parse.ExperimentalDir = dirs
+			pool = append(pool, expState{dirs, newState(cfg)})
+		}
+		expandState := newState(core.DefaultConfiguration())
 		ntrees := c.Scale(120, 2500)
 		for i := 0; i < ntrees; i++ {
 			r := c.Rng.Fork()
-			tree := genTree(r)
+			es := pool[i%len(pool)]
+			dirs, state := es.dirs, es.state
+			tree := genTree(r, dirs)
 			c.HistN("tree_packages", len(tree))
 			pats, others := genPatterns(r, tree), genOthers(r, tree)
 			selectCase(c, pats, others)
@@ -743,22 +795,14 @@ func main() {
 			for k := r.Range(0, 2); k > 0; k-- {
 				whitelist = append(whitelist, lib.Pick(r, pats))
 			}
-			dirs := []string{}
-			for k := r.Range(0, 2); k > 0; k-- {
-				// an experimental directory is a directory below the root: never "" or "."
-				if d := lib.Pick(r, tree); d != "" && d != "." {
-					dirs = append(dirs, d)
-				}
-			}
+			c.HistN("experimental_dirs", len(dirs))
+			sst := sandboxState(whitelist, dirs)
 			for _, o := range others {
 				t := sbxTarget{Label: o, Filegroup: r.Chance(1, 12), Remote: r.Chance(1, 8), Sandbox: r.Chance(1, 4), HasTest: r.Chance(1, 3), TestSbx: r.Bool()}
-				sandboxCase(c, whitelist, dirs, t)
+				sandboxCase(c, sst, t)
 			}
 
 			// visibility / experimental tree
-			cfg := core.DefaultConfiguration()
-			cfg.Parse.ExperimentalDir = dirs
-			state := core.NewBuildState(cfg)
 			for k := 0; k < 6; k++ {
 				vis := []core.BuildLabel{}
 				for j := r.Range(0, 2); j > 0; j-- {
@@ -767,7 +811,7 @@ func main() {
 				canSeeCase(c, state, dirs, lib.Pick(r, others), lib.Pick(r, others), vis)
 			}
 
-			expandCase(c, tree, r)
+			expandCase(c, expandState, tree, r)
 		}
 	})
 }
